@@ -23,6 +23,7 @@ RECURSIVE DedupRec(_, _, _)
 DedupRec(ps, i, acc) == IF i > Len(ps) THEN acc
                         ELSE IF acc # <<>> /\ acc[Len(acc)] = ps[i] THEN DedupRec(ps, i + 1, acc)
                         ELSE DedupRec(ps, i + 1, Append(acc, ps[i]))
+Dedup0(ps) == DedupRec(ps, 1, <<>>)            \* consecutive duplicates only (open lists)
 Dedup(ps) == LET d == DedupRec(ps, 1, <<>>) IN
              IF Len(d) > 1 /\ d[1] = d[Len(d)] THEN SubSeq(d, 1, Len(d) - 1) ELSE d
 Rot(ps, k) == [i \in DOMAIN ps |-> ps[((i + k - 1) % Len(ps)) + 1]]
@@ -108,6 +109,17 @@ PolyFails(s, j, tol) ==
           ELSE Tag("vertices_on_grid", PtsOnGrid(j.xy))
                \cup Tag(s.shape \o "_vertices", PtsOnGrid(j.xy) /\ SameRing(s.pts, GridPts(j.xy))))
 
+\* an open point list without the interior points that lie on the segment between their neighbours
+\* (a robust path's centre line is written with extra sample points; they do not change the path)
+Between(a, b, c) == /\ (b[1] - a[1]) * (c[2] - a[2]) = (b[2] - a[2]) * (c[1] - a[1])
+                    /\ (b[1] - a[1]) * (c[1] - b[1]) + (b[2] - a[2]) * (c[2] - b[2]) > 0
+RECURSIVE SimplifyOpenRec(_, _, _)
+SimplifyOpenRec(ps, i, acc) ==
+    IF i > Len(ps) THEN acc
+    ELSE IF i < Len(ps) /\ acc # <<>> /\ Between(acc[Len(acc)], ps[i], ps[i + 1]) THEN SimplifyOpenRec(ps, i + 1, acc)
+    ELSE SimplifyOpenRec(ps, i + 1, Append(acc, ps[i]))
+SimplifyOpen(ps) == SimplifyOpenRec(Dedup0(ps), 1, <<>>)
+
 \* end extensions of a logged path element, canonical (start, end) in 1/1000 unit
 JExt(el) == CASE el.pt = 0 -> <<0, 0>> [] el.pt = 2 -> <<el.w \div 2, el.w \div 2>> [] el.pt = 4 -> <<el.ext[1], el.ext[2]>>
               [] OTHER -> <<-1, -1>>
@@ -117,7 +129,7 @@ PathFails(s, j) ==
     \cup Tag("layer", WrapInt(s.l) = el.l) \cup Tag("datatype", WrapInt(s.t) = el.t)
     \cup Tag("half_width", el.w = 2 * Fine * s.hw)
     \cup Tag("end_extensions", JExt(el) = <<Fine * s.es, Fine * s.ee>>)
-    \cup Tag("spine", PtsOnGrid(j.spine) /\ GridPts(j.spine) = s.pts)
+    \cup Tag("spine", PtsOnGrid(j.spine) /\ SimplifyOpen(GridPts(j.spine)) = SimplifyOpen(s.pts))
     \cup Tag("repetition", RepAgree(s.rep, j.rep)) \cup Tag("properties", PropsAgree(s.props, j.aprops))
 
 SpecMag1024(mag) == CASE mag[1] = "one" -> 1024 [] mag[1] = "lat" -> mag[2] [] OTHER -> RealNear(mag[2], 1024)
